@@ -108,7 +108,7 @@ def planar_violations(rng, n_cases, slopes=(None, 0.1, 0.5, 1.0, 2.0, 5.0)):
 def _net_objects(rng, tier):
     quick = tier == "quick"
     out = []
-    for dim, cd, depth in ([(2, None, 1), (3, 2, 2), (1, 1, 2), (2, 2, 3)] if quick else [(d, c, k) for d in (1, 2, 3) for c in (None, 1, 2) for k in (0, 1, 2, 3)]):
+    for dim, cd, depth in ([(2, None, 1), (3, 2, 2), (1, 1, 2), (2, 2, 3), (2, 2, 0), (1, 1, 0)] if quick else [(d, c, k) for d in (1, 2, 3) for c in (None, 1, 2) for k in (0, 1, 2, 3)]):
         out.append((f"BlockAutoregressiveNetwork(dim={dim},cond={cd},depth={depth})", "bnaf", dict(dim=dim, cd=cd, depth=depth)))
     for dim, cd, depth in ([(3, None, 1), (2, 2, 0), (3, 1, 2)] if quick else [(d, c, k) for d in (1, 2, 4) for c in (None, 2) for k in (0, 1, 2)]):
         out.append((f"MaskedAutoregressive(dim={dim},cond={cd},depth={depth})", "maf", dict(dim=dim, cd=cd, depth=depth)))
